@@ -12,6 +12,7 @@ with open(os.path.join(core.SPEC, "Session_cfgs.json")) as _index_file:
     MODULES = json.load(_index_file)
 
 BOTH = ("delimited", "fixed")
+FIXED_VARIANTS = ("fixed:none", "fixed:crlf", "fixed:cr", "fixed:any")
 RW = session_check.READ_ACTIONS + session_check.WRITE_ACTIONS
 
 # property -> tier -> list of steps (cfg name, formats, required actions, max_replay, simulate, depth)
@@ -21,7 +22,7 @@ PLANS = {
         "thorough": [("c04_quick", BOTH, session_check.READ_ACTIONS + ["ReaderFault"], None, None, None),
                      ("c04_h0", BOTH, session_check.READ_ACTIONS, None, None, None),
                      ("c04_h2", BOTH, session_check.READ_ACTIONS, None, None, None),
-                     ("c04_t4", BOTH, session_check.READ_ACTIONS, None, None, None)],
+                     ("c04_t4", BOTH + FIXED_VARIANTS, session_check.READ_ACTIONS, None, None, None)],
     },
     "C05": {
         "quick": [("c05_ck1", BOTH, session_check.READ_ACTIONS, None, None, None),
@@ -52,10 +53,10 @@ PLANS = {
                      ("c08_hist3", (), RW, 0, None, None)],
     },
     "C14": {
-        "quick": [("c14_h0_t3", BOTH, session_check.WRITE_ACTIONS, None, None, None),
-                  ("c14_h1_t3", BOTH, session_check.WRITE_ACTIONS, None, None, None)],
-        "thorough": [("c14_h0_t4", BOTH, session_check.WRITE_ACTIONS, None, None, None),
-                     ("c14_h1_t4", BOTH, session_check.WRITE_ACTIONS, None, None, None)],
+        "quick": [("c14_h0_t3", BOTH + ("fixed:none",), session_check.WRITE_ACTIONS, None, None, None),
+                  ("c14_h1_t3", BOTH + ("fixed:none", "fixed:crlf"), session_check.WRITE_ACTIONS, None, None, None)],
+        "thorough": [("c14_h0_t4", BOTH + FIXED_VARIANTS, session_check.WRITE_ACTIONS, None, None, None),
+                     ("c14_h1_t4", BOTH + FIXED_VARIANTS, session_check.WRITE_ACTIONS, None, None, None)],
     },
 }
 
